@@ -17,6 +17,7 @@ import GoflowModel.Driver.Util
   cqlredact <hex property> <value empty 01>  →  accept | reject-redacted                  (VisitCondition under the urns policy)
   ctxview <redact01> <hex name> <id> <urns> <sendable schemes>  →  default=… urn=… urns=… by=…   (Contact.Context)
   repeatguard <len> <count> → ok <n> | err ; roundguard <places> → ok | err ; expguard <e> → ok | err ; callrun <e|l…> → ok <calls> <depth>
+  wordguard <n> <index> → ok <offset> | none ; wordsliceguard <n> <start> <end or -1> → ok <lo> <hi> | none ; fieldguard <n> <index> → ok <i> | none
   limitname <max> <hex name>                →  ok <hex>                                    (Migrate13_6)
   legacyorder <entry id> <id:y,…>           →  ok <ids in migrated order>                  (legacy.migrateNodes)
   objget <hex names,…> <hex key>            →  ok <index of the property found> | none   (XObject.Get)
@@ -131,6 +132,13 @@ def handle : List String → Option String
     some (match Guards.repeatLen (← len.toNat?) (← parseInt count) with | none => "err" | some n => s!"ok {n}")
   | ["roundguard", places] => do
     some (if Guards.placesOk (← parseInt places) then "ok" else "err")
+  | ["wordguard", n, index] => do
+    some (match Guards.wordOffset (← n.toNat?) (← parseInt index) with | none => "none" | some o => s!"ok {o}")
+  | ["wordsliceguard", n, start, stop] => do
+    some (match Guards.wordSliceBounds (← n.toNat?) (← parseInt start) (← parseInt stop) with
+      | none => "none" | some (lo, hi) => s!"ok {lo} {hi}")
+  | ["fieldguard", n, index] => do
+    some (match Guards.fieldIndex (← n.toNat?) (← parseInt index) with | none => "none" | some i => s!"ok {i}")
   | ["expguard", e] => do
     some (if Guards.exponentOk (← parseInt e) then "ok" else "err")
   | ["callrun", evs] => do
